@@ -48,7 +48,7 @@ def decodeRecords (s : String) (viaCli : Bool) : Option (List Rec) :=
       let pos ← p.toNat?
       if g.startsWith "!" then pure (Rec.corrupt c pos)
       else if !viaCli then pure (Rec.gts c pos ((g.splitOn ",").map codeToGt))
-      else match (g.splitOn ",").mapM (fun gt => (parseGT gt.toList).map classifyField) with
+      else match (g.splitOn ",").mapM (fun gt => if gt == "@" then some (GtRes.skipped .missing) else (parseGT gt.toList).map classifyField) with
         | some l => pure (Rec.gts c pos l)
         | none => pure (Rec.corrupt c pos)
     | _ => none)
